@@ -4,9 +4,7 @@ namespace Driver
 open Zmq
 
 structure CodecSt where
-  dec : Dec := Dec.init
-  buf : Bytes := []
-  dead : Bool := false
+  conn : Conn := Conn.init
 
 def codecOp (s : CodecSt) (w : List String) : CodecSt × String :=
   match w with
@@ -40,15 +38,25 @@ def codecOp (s : CodecSt) (w : List String) : CodecSt × String :=
     match parseBytes c with
     | none => (s, "bad-op")
     | some chunk =>
-      if s.dead then (s, "dead") else
-      let r := run s.dec (s.buf ++ chunk)
-      let items := r.items.map showItem
-      let (tail, dead) := match r.panic, r.error with
-        | some _, _ => ("PANIC", true)
-        | none, some e => (s!"err {errName e}", true)
-        | none, none => ("none", false)
-      ({ dec := r.dec, buf := r.rest, dead := dead },
-        s!"items {" ; ".intercalate (items ++ [tail])} | left {r.rest.length}")
+      if s.conn.dead then (s, "dead") else
+      let (items, c') := s.conn.feed chunk
+      let tail := match c'.panic, c'.error with
+        | some _, _ => "PANIC"
+        | none, some e => s!"err {errName e}"
+        | none, none => "none"
+      ({ conn := c' }, s!"items {" ; ".intercalate (items.map showItem ++ [tail])} | left {c'.buf.length}")
+  | ["hfeed", c] =>
+    match parseBytes c with
+    | none => (s, "bad-op")
+    | some chunk =>
+      if s.conn.dead then (s, "dead") else
+      let (items, c') := s.conn.feed chunk
+      let tail := match c'.panic, c'.error with
+        | some _, _ => "PANIC"
+        | none, some e => s!"err {errName e}"
+        | none, none => "none"
+      ({ conn := c' },
+        s!"items {" ; ".intercalate (items.map showItem ++ [tail])} | left {c'.buf.length} | heap ok")
   | _ => (s, "bad-op")
 
 end Driver
